@@ -210,9 +210,13 @@ func specFor(w *sim.World, ep *sim.Endpoint) (*oracle.FlowSpec, *sim.CallState) 
 			cs = w.Calls[idx]
 		}
 	} else {
+		// the request that was running when the handle was created (requests of one scenario follow
+		// each other, they never overlap); else the last one
 		for _, c := range w.Calls {
 			if c.C.Entry == "run_traceroute" || c.C.Entry == "http_handler" {
-				cs = c
+				if cs == nil || (c.Started && c.StartAt <= ep.Created) {
+					cs = c
+				}
 			}
 		}
 	}
